@@ -9,6 +9,7 @@ queue must additionally equal what the meter sent.
 from __future__ import annotations
 
 import asyncio
+import contextlib
 import copy
 
 from dst.core import prng, shrink
@@ -37,11 +38,11 @@ STATE_MEASURE = "distinct (protocol class, candidate list, stream kind, selectio
 REAL = ["han.meter_connection.SmartMeterMessagePayloadProtocol", "han.meter_connection.SmartMeterMessageProtocol", "han.hdlc.HdlcFrameReader", "han.dlde.ModeDReader", "asyncio.Queue/Future/Task (CPython)"]
 STUB = ["event loop clock+selector (VLoop)", "transport (delivers chunks by call_later at line rate)", "meter/line/fragmentation models", "queue consumer task"]
 ASSUMPTIONS = [
-    "ties between candidates that first produce a valid message in the same chunk may be resolved either way",
+    "ties between candidates that first produce a valid message in the same chunk may be resolved either way, but the same way whenever the same stream, chunking and candidate list are given again (the property quantifies over exactly these and speaks of 'the selected reader'; tie runs are executed seven times with freshly allocated objects)",
     "an exception escaping data_received on a noisy stream makes the run void (C14); on a clean stream it is a violation (promised messages lost)",
     "the absolute clean-stream oracle is used only with candidate lists in which exactly one reader matches the stream's type and configuration",
 ]
-MUST_FIRE = {"quick": ["valid_message_with_empty_payload", "selected_second_candidate", "invalid_withheld", "clean_absolute_checked", "empty_candidate_list", "selection_after_first_chunk", "reconnect_with_same_candidate_sequence", "candidates_as_tuple", "bystander_protocol_instance"], "thorough": ["selected_second_candidate", "invalid_withheld", "clean_absolute_checked", "empty_candidate_list", "selection_after_first_chunk"]}
+MUST_FIRE = {"quick": ["valid_message_with_empty_payload", "selected_second_candidate", "invalid_withheld", "clean_absolute_checked", "empty_candidate_list", "selection_after_first_chunk", "reconnect_with_same_candidate_sequence", "candidates_as_tuple", "bystander_protocol_instance", "stalled_delivery", "tie_between_candidates"], "thorough": ["selected_second_candidate", "invalid_withheld", "clean_absolute_checked", "empty_candidate_list", "selection_after_first_chunk"]}
 
 
 def _cand_lists(rng, cfg):
@@ -138,7 +139,31 @@ def _msg_sig(m):
     return (type(m).__name__, m.as_bytes, bool(m.is_valid))
 
 
+_KEEP = []
+
+
 def execute(sc):
+    """One run; when two candidates produce their first valid message in the same chunk (a tie, which the property
+    lets the library resolve either way) the run is executed again with freshly allocated reader objects: the queue
+    contents must be a function of (stream, chunking, candidate list), not of where the objects happen to live."""
+    res = _execute_once(sc)
+    if res.pop("tie", False) and not res["violations"] and not res["void"]:
+        res["probes"]["tie_between_candidates"] = 1
+        for _ in range(6):
+            _KEEP.append([object() for _ in range(1 + len(_KEEP) % 7)])  # shift the allocator; earlier readers stay alive below
+            again = _execute_once(sc)
+            _KEEP.append(again.pop("_objects", None))
+            if again["digest"] != res["digest"]:
+                res["violations"].append({"sig": f"C13/Q4 {sc['cls']} outcome-differs-between-executions-with-identical-inputs", "detail": f"candidates {sc['cands']} tie in one chunk; two executions of the same stream, chunking and candidate list put different items on the queue ({res['summary']['queue_items']} vs {again['summary']['queue_items']} items): there is no single 'selected reader' for these inputs"})
+                res["digest"] = prng.digest(["Q4"])
+                break
+        if len(_KEEP) > 64:
+            del _KEEP[:]
+    res.pop("_objects", None)
+    return res
+
+
+def _execute_once(sc):
     import han.meter_connection as mc
 
     stream = sc["stream"]
@@ -220,11 +245,16 @@ def execute(sc):
             got.append(await q.get())
 
     t = 0.0
+    stall = {}
+    for k, sec in sc["cuts"].get("gaps") or ():  # the sender / the transport stalls before some deliveries
+        stall[k % len(chunks)] = stall.get(k % len(chunks), 0.0) + float(sec)
     for idx, chunk in enumerate(chunks):
-        t += len(chunk) / reader_rig.LINE_RATE
+        t += len(chunk) / reader_rig.LINE_RATE + stall.get(idx, 0.0)
         loop.call_at(t, deliver, chunk, idx)
     consumer = loop.create_task(consume())
-    loop.drive(10 * len(chunks) + 100)
+    # every clock the library could consult reads the virtual loop's time while the deliveries run
+    with reader_rig.ProcessClock(loop.time) if stall else contextlib.nullcontext():
+        loop.drive(10 * len(chunks) + 100)
     sim_s = loop.time()
     consumer.cancel()
     loop.shutdown()
@@ -240,6 +270,7 @@ def execute(sc):
             viol.append({"sig": sig, "detail": detail})
 
     void = False
+    tie = False
     if errors:
         idx, ex = errors[0]
         if clean:
@@ -280,6 +311,7 @@ def execute(sc):
                     probes["empty_candidate_list"] = 1
             else:
                 k = min(firsts)
+                tie = sum(1 for f in firsts if f == k) > 1
                 explained = False
                 options = []
                 for ci, (f, by_chunk, _) in enumerate(per):
@@ -339,12 +371,16 @@ def execute(sc):
         probes["reconnect_with_same_candidate_sequence"] = 1
     if sc.get("cands_as") == "tuple":
         probes["candidates_as_tuple"] = 1
+    if stall:
+        probes["stalled_delivery"] = 1
     if reuse_failed:
         void = True
         viol = []
     probes[f"stream_{stream['kind']}"] = 1
     probes[f"class_{sc['cls']}"] = 1
     return {
+        "tie": tie,
+        "_objects": (readers, proto),
         "violations": viol,
         "void": void,
         "digest": prng.digest([len(got), prng.digest([g if isinstance(g, bytes) else _msg_sig(g) for g in got]), [v["sig"] for v in viol], void]),
